@@ -302,22 +302,65 @@ theorem decLit_no_comma {x : Str} (hx : IsDecLit x) : ',' ∉ x := by
   have := List.all_eq_true.mp hx.2 _ hm
   exact (isDigit_ne this).2.2.2.2 rfl
 
-/-- `multi w "e1,e2,...,en"` (at least two nonempty comma-free elements): element by element -/
+/-! ### list elements since the repair of C2: `elemHexP` (a symbol or an expression holds its place), literals as before -/
+
+/-- a literal that `elemHex` renders is rendered the same way by `elemHexP` -/
+theorem elemHexP_of_ok {w : Nat} {x h : Str} (he : elemHex w x = .ok h) : elemHexP w x = .ok h := by
+  simp [elemHexP, he]
+
+/-- an element that is neither a symbol nor an expression: `elemHexP` is `elemHex`, errors included -/
+theorem elemHexP_of_not_pending {w : Nat} {x : Str} (hp : pendingElem x = false) : elemHexP w x = elemHex w x := by
+  unfold elemHexP
+  cases elemHex w x <;> simp [hp]
+
+/-- a pending element (a symbol, an expression) that is not a literal holds its place with `w` zeros -/
+theorem elemHexP_pending {w : Nat} {x : Str} {e : Exn} (he : elemHex w x = .error e) (hp : pendingElem x = true) :
+    elemHexP w x = .ok (List.replicate w '0') := by
+  simp [elemHexP, he, hp]
+
+theorem mapM_congr_mem {α β} (f g : α → R β) (l : List α) (h : ∀ x ∈ l, f x = g x) : l.mapM f = l.mapM g := by
+  induction l with
+  | nil => rfl
+  | cons x t ih =>
+    rw [List.mapM_cons, List.mapM_cons, h x (by simp), ih (fun y hy => h y (by simp [hy]))]
+
+/-- for a list of LITERALS nothing changed: if `elemHex` renders every element, `multi` gives what it gave before
+the repair (`elemHex` mapped over the elements) -/
+theorem multi_eq_of_literals {w : Nat} {value : Str} (hl : ∀ x ∈ listElems value, ∃ h, elemHex w x = .ok h) :
+    multi w value = if !(value.contains ',') then .error .valueType else (listElems value).mapM (elemHex w) := by
+  unfold multi
+  split
+  · rfl
+  · exact mapM_congr_mem _ _ _ (fun x hx => by obtain ⟨h, hh⟩ := hl x hx; rw [elemHexP_of_ok hh, hh])
+
+theorem listElems_joinWith (lits : List Str) (hne : lits ≠ []) (hl : ∀ x ∈ lits, x ≠ [] ∧ ',' ∉ x) :
+    listElems (joinWith ',' lits) = lits := by
+  unfold listElems
+  rw [splitOn_joinWith ',' lits hne (fun p hp => (hl p hp).2)]
+  apply List.filter_eq_self.mpr
+  intro p hp
+  have := (hl p hp).1
+  simpa using this
+
+/-- `multi w "e1,e2,...,en"` (at least two nonempty comma-free elements): element by element (`elemHexP` since the
+repair of C2; `elemHex` before) -/
 theorem multi_of_elems {w : Nat} (lits : List Str) (h2 : 2 ≤ lits.length)
-    (hl : ∀ x ∈ lits, x ≠ [] ∧ ',' ∉ x) : multi w (joinWith ',' lits) = lits.mapM (elemHex w) := by
+    (hl : ∀ x ∈ lits, x ≠ [] ∧ ',' ∉ x) : multi w (joinWith ',' lits) = lits.mapM (elemHexP w) := by
   obtain ⟨a, b, t, rfl⟩ : ∃ a b t, lits = a :: b :: t := by
     match lits, h2 with
     | a :: b :: t, _ => exact ⟨a, b, t, rfl⟩
   have hc := contains_joinWith ',' a b t
-  have hs := splitOn_joinWith ',' (a :: b :: t) (by simp) (fun p hp => (hl p hp).2)
-  have hf : (a :: b :: t).filter (· != []) = a :: b :: t := by
-    apply List.filter_eq_self.mpr
-    intro p hp
-    have := (hl p hp).1
-    simpa using this
   unfold multi
-  rw [hc, hs, hf]
+  rw [hc, listElems_joinWith (a :: b :: t) (by simp) hl]
   simp
+
+/-- ... and for elements on which `elemHexP` is `elemHex` (literals that are rendered, texts that are not pending):
+as before the repair -/
+theorem multi_of_literals {w : Nat} (lits : List Str) (h2 : 2 ≤ lits.length)
+    (hl : ∀ x ∈ lits, x ≠ [] ∧ ',' ∉ x) (hp : ∀ x ∈ lits, elemHexP w x = elemHex w x) :
+    multi w (joinWith ',' lits) = lits.mapM (elemHex w) := by
+  rw [multi_of_elems lits h2 hl]
+  exact mapM_congr_mem _ _ _ hp
 
 theorem mapM_ok_of_forall {α β} (f : α → R β) (g : α → β) (l : List α) (h : ∀ x ∈ l, f x = .ok (g x)) :
     l.mapM f = .ok (l.map g) := by
@@ -344,26 +387,30 @@ theorem mapM_error_of_mem {α β} (f : α → R β) (l : List α) {x : α} {e : 
 theorem multi2_dec (lits : List Str) (h2 : 2 ≤ lits.length)
     (hl : ∀ x ∈ lits, IsDecLit x ∧ parseBase 10 x < 256) :
     multi 2 (joinWith ',' lits) = .ok ((lits.map (parseBase 10)).map byteHex) := by
-  rw [multi_of_elems lits h2 (fun x hx => ⟨(hl x hx).1.1, decLit_no_comma (hl x hx).1⟩),
-    mapM_ok_of_forall (elemHex 2) (fun x => byteHex (parseBase 10 x)) lits ?_, List.map_map]
-  · rfl
-  · intro x hx
+  have he : ∀ x ∈ lits, elemHex 2 x = .ok (byteHex (parseBase 10 x)) := by
+    intro x hx
     have hv := (hl x hx).2
     have hn := numericOfStr_dec (hl x hx).1 none .none (by omega)
     have := elemHex_byte hn (by simp [fitsByte]; omega)
     simpa [byteField] using this
+  rw [multi_of_literals lits h2 (fun x hx => ⟨(hl x hx).1.1, decLit_no_comma (hl x hx).1⟩)
+      (fun x hx => by rw [elemHexP_of_ok (he x hx), he x hx]),
+    mapM_ok_of_forall (elemHex 2) (fun x => byteHex (parseBase 10 x)) lits he, List.map_map]
+  rfl
 
 theorem multi4_dec (lits : List Str) (h2 : 2 ≤ lits.length)
     (hl : ∀ x ∈ lits, IsDecLit x ∧ parseBase 10 x < 65536) :
     multi 4 (joinWith ',' lits) = .ok ((lits.map (parseBase 10)).map wordHex) := by
-  rw [multi_of_elems lits h2 (fun x hx => ⟨(hl x hx).1.1, decLit_no_comma (hl x hx).1⟩),
-    mapM_ok_of_forall (elemHex 4) (fun x => wordHex (parseBase 10 x)) lits ?_, List.map_map]
-  · rfl
-  · intro x hx
+  have he : ∀ x ∈ lits, elemHex 4 x = .ok (wordHex (parseBase 10 x)) := by
+    intro x hx
     have hv := (hl x hx).2
     have hn := numericOfStr_dec (hl x hx).1 none .none hv
     have := elemHex_word hn (by simp [fitsWord]; omega)
     simpa [wordField, wordHex] using this
+  rw [multi_of_literals lits h2 (fun x hx => ⟨(hl x hx).1.1, decLit_no_comma (hl x hx).1⟩)
+      (fun x hx => by rw [elemHexP_of_ok (he x hx), he x hx]),
+    mapM_ok_of_forall (elemHex 4) (fun x => wordHex (parseBase 10 x)) lits he, List.map_map]
+  rfl
 
 /-! ### `createOperand` for a multi-value line -/
 
@@ -604,47 +651,127 @@ theorem elemHex4_sdec {e : Bool × Str} (hx : IsDecLit e.2) :
       rw [hf, elemHex_nonNumeric (numericOfStr_neg_big hx none .none (by omega))]
       rfl
 
+/-! #### which signed decimal texts are "pending" (kept for the symbol table) since the repair of C2 -/
+
+/-- a decimal literal below 65536 is a number: not pending -/
+theorem pendingElem_dec {x : Str} (hx : IsDecLit x) (hv : parseBase 10 x < 65536) : pendingElem x = false := by
+  have := createV_dec hx hv
+  unfold createV at this
+  simp [pendingElem, this, Value.isSymbol, Value.isExpression]
+
+/-- a text with a leading minus sign is a number or an error, never a symbol or an expression: not pending -/
+theorem pendingElem_neg {ds : Str} (hx : IsDecLit ds) : pendingElem ('-' :: ds) = false := by
+  by_cases hv : parseBase 10 ds ≤ 32768
+  · have := createV_neg hx hv
+    unfold createV at this
+    simp [pendingElem, this, Value.isSymbol, Value.isExpression]
+  · have hcomma : (('-' :: ds).contains ',') = false := by
+      have := decLit_no_comma hx
+      simp [this]
+    have n1 : ('-' == '<') = false := by decide
+    have n2 : ('-' == '>') = false := by decide
+    have n3 : ('-' == '#') = false := by decide
+    have n4 : isSym '-' = false := by decide
+    have hnum := numericOfStr_neg_big hx none .extended (by omega)
+    have : create 4 ('-' :: ds) false false true = .error .valueType := by
+      simp only [create, Bool.false_and, Bool.false_eq_true, if_false, if_true, n1, n2, n3,
+        splitExpr_neg, hcomma, hnum]
+      simp [n4]
+    simp [pendingElem, this]
+
+/-- a signed decimal text that the parser reads as a NUMBER (a minus sign, or below 65536): not pending -/
+theorem pendingElem_sdec {e : Bool × Str} (hx : IsDecLit e.2) (hn : e.1 = true ∨ parseBase 10 e.2 < 65536) :
+    pendingElem (sdec e) = false := by
+  obtain ⟨neg, ds⟩ := e
+  cases neg
+  · rcases hn with hn | hn
+    · cases hn
+    · exact pendingElem_dec hx hn
+  · exact pendingElem_neg hx
+
+/-- ... whereas an unsigned run of digits from 65536 on is not a number to `Value.create_from_str`: it is taken as a
+SYMBOL of that name (as `FDB 70000` is, `C05_finding_FDB_70000_fixed`), so inside a list it is pending now and is
+refused only when the list is evaluated (the symbol is undefined), not when the line is parsed -/
+theorem pendingElem_dec_big {x : Str} (hx : IsDecLit x) (hv : 65536 ≤ parseBase 10 x) : pendingElem x = true := by
+  have hall : ∀ c ∈ x, isDigit c = true := List.all_eq_true.mp hx.2
+  have hcomma : x.contains ',' = false := by
+    have := decLit_no_comma hx
+    simpa using this
+  have hsym : x.all isSym = true := List.all_eq_true.mpr (fun c hc => isDigit_isSym (hall c hc))
+  cases x with
+  | nil => exact absurd rfl hx.1
+  | cons a t =>
+    have ha := hall a (by simp)
+    have n1 : (a == '<') = false := by
+      have : a ≠ '<' := by rintro rfl; revert ha; decide
+      simpa using this
+    have n2 : (a == '>') = false := by
+      have : a ≠ '>' := by rintro rfl; revert ha; decide
+      simpa using this
+    have n3 : (a == '#') = false := by
+      have : a ≠ '#' := by rintro rfl; revert ha; decide
+      simpa using this
+    have hnum := numericOfStr_dec_big hx none .extended hv
+    have : create 4 (a :: t) false false true = .ok (.symbol (a :: t) .extended) := by
+      simp only [create, Bool.false_and, Bool.false_eq_true, if_false, if_true, n1, n2, n3,
+        splitExpr_dec hx, hcomma, hnum]
+      simp [hsym]
+    simp [pendingElem, this, Value.isSymbol]
+
 /-- `FCB e1,...,en` with signed decimal elements that all fit: the two's complement bytes -/
 theorem multi2_sdec (lits : List (Bool × Str)) (h2 : 2 ≤ lits.length)
     (hl : ∀ e ∈ lits, IsDecLit e.2 ∧ fitsByte (parseBase 10 e.2) e.1 = true) :
     multi 2 (joinWith ',' (lits.map sdec)) = .ok ((lits.map (fun e => byteField (parseBase 10 e.2) e.1)).map byteHex) := by
-  rw [multi_of_elems (lits.map sdec) (by simpa using h2) ?_, List.mapM_map,
-    mapM_ok_of_forall (elemHex 2 ∘ sdec) (fun e => byteHex (byteField (parseBase 10 e.2) e.1)) lits ?_, List.map_map]
+  have he : ∀ e ∈ lits, elemHex 2 (sdec e) = .ok (byteHex (byteField (parseBase 10 e.2) e.1)) := by
+    intro e he
+    simp only [elemHex2_sdec (hl e he).1, (hl e he).2, if_true]
+  rw [multi_of_literals (lits.map sdec) (by simpa using h2) ?_ ?_, List.mapM_map,
+    mapM_ok_of_forall (elemHex 2 ∘ sdec) (fun e => byteHex (byteField (parseBase 10 e.2) e.1)) lits he, List.map_map]
   · rfl
-  · intro e he
-    simp only [Function.comp, elemHex2_sdec (hl e he).1, (hl e he).2, if_true]
   · intro x hx
-    obtain ⟨e, he, rfl⟩ := List.mem_map.mp hx
-    exact ⟨sdec_ne_nil (hl e he).1, sdec_no_comma (hl e he).1⟩
+    obtain ⟨e, he', rfl⟩ := List.mem_map.mp hx
+    exact ⟨sdec_ne_nil (hl e he').1, sdec_no_comma (hl e he').1⟩
+  · intro x hx
+    obtain ⟨e, he', rfl⟩ := List.mem_map.mp hx
+    rw [elemHexP_of_ok (he e he'), he e he']
 
-/-- ... and as soon as one element does not fit the whole line is refused -/
+/-- ... and as soon as one element THAT THE PARSER READS AS A NUMBER (`hn`: a minus sign, or below 65536) does not fit
+the whole line is refused.  (Restated after the repair of C2: the hypothesis `hn` is new.  An unsigned run of digits
+from 65536 on is a symbol name to the parser — `pendingElem_dec_big` — and is refused only when the list is evaluated.) -/
 theorem multi2_sdec_reject (lits : List (Bool × Str)) (h2 : 2 ≤ lits.length) (hl : ∀ e ∈ lits, IsDecLit e.2)
-    {e : Bool × Str} (he : e ∈ lits) (hf : fitsByte (parseBase 10 e.2) e.1 = false) :
+    {e : Bool × Str} (he : e ∈ lits) (hn : e.1 = true ∨ parseBase 10 e.2 < 65536)
+    (hf : fitsByte (parseBase 10 e.2) e.1 = false) :
     ∃ err, multi 2 (joinWith ',' (lits.map sdec)) = .error err := by
   rw [multi_of_elems (lits.map sdec) (by simpa using h2)
     (by intro x hx; obtain ⟨e', he', rfl⟩ := List.mem_map.mp hx; exact ⟨sdec_ne_nil (hl e' he'), sdec_no_comma (hl e' he')⟩)]
-  exact mapM_error_of_mem (elemHex 2) (lits.map sdec) (x := sdec e) (e := .valueType) (List.mem_map.mpr ⟨e, he, rfl⟩)
-    (by rw [elemHex2_sdec (hl e he), hf]; rfl)
+  exact mapM_error_of_mem (elemHexP 2) (lits.map sdec) (x := sdec e) (e := .valueType) (List.mem_map.mpr ⟨e, he, rfl⟩)
+    (by rw [elemHexP_of_not_pending (pendingElem_sdec (hl e he) hn), elemHex2_sdec (hl e he), hf]; rfl)
 
 theorem multi4_sdec (lits : List (Bool × Str)) (h2 : 2 ≤ lits.length)
     (hl : ∀ e ∈ lits, IsDecLit e.2 ∧ fitsWord (parseBase 10 e.2) e.1 = true) :
     multi 4 (joinWith ',' (lits.map sdec)) = .ok ((lits.map (fun e => wordField (parseBase 10 e.2) e.1)).map wordHex) := by
-  rw [multi_of_elems (lits.map sdec) (by simpa using h2) ?_, List.mapM_map,
-    mapM_ok_of_forall (elemHex 4 ∘ sdec) (fun e => wordHex (wordField (parseBase 10 e.2) e.1)) lits ?_, List.map_map]
+  have he : ∀ e ∈ lits, elemHex 4 (sdec e) = .ok (wordHex (wordField (parseBase 10 e.2) e.1)) := by
+    intro e he
+    simp only [elemHex4_sdec (hl e he).1, (hl e he).2, if_true]
+  rw [multi_of_literals (lits.map sdec) (by simpa using h2) ?_ ?_, List.mapM_map,
+    mapM_ok_of_forall (elemHex 4 ∘ sdec) (fun e => wordHex (wordField (parseBase 10 e.2) e.1)) lits he, List.map_map]
   · rfl
-  · intro e he
-    simp only [Function.comp, elemHex4_sdec (hl e he).1, (hl e he).2, if_true]
   · intro x hx
-    obtain ⟨e, he, rfl⟩ := List.mem_map.mp hx
-    exact ⟨sdec_ne_nil (hl e he).1, sdec_no_comma (hl e he).1⟩
+    obtain ⟨e, he', rfl⟩ := List.mem_map.mp hx
+    exact ⟨sdec_ne_nil (hl e he').1, sdec_no_comma (hl e he').1⟩
+  · intro x hx
+    obtain ⟨e, he', rfl⟩ := List.mem_map.mp hx
+    rw [elemHexP_of_ok (he e he'), he e he']
 
+/-- restated like `multi2_sdec_reject` (new hypothesis `hn`); what remains for FDB are the negatives below −32768 -/
 theorem multi4_sdec_reject (lits : List (Bool × Str)) (h2 : 2 ≤ lits.length) (hl : ∀ e ∈ lits, IsDecLit e.2)
-    {e : Bool × Str} (he : e ∈ lits) (hf : fitsWord (parseBase 10 e.2) e.1 = false) :
+    {e : Bool × Str} (he : e ∈ lits) (hn : e.1 = true ∨ parseBase 10 e.2 < 65536)
+    (hf : fitsWord (parseBase 10 e.2) e.1 = false) :
     ∃ err, multi 4 (joinWith ',' (lits.map sdec)) = .error err := by
   rw [multi_of_elems (lits.map sdec) (by simpa using h2)
     (by intro x hx; obtain ⟨e', he', rfl⟩ := List.mem_map.mp hx; exact ⟨sdec_ne_nil (hl e' he'), sdec_no_comma (hl e' he')⟩)]
-  exact mapM_error_of_mem (elemHex 4) (lits.map sdec) (x := sdec e) (e := .valueType) (List.mem_map.mpr ⟨e, he, rfl⟩)
-    (by rw [elemHex4_sdec (hl e he), hf]; rfl)
+  exact mapM_error_of_mem (elemHexP 4) (lits.map sdec) (x := sdec e) (e := .valueType) (List.mem_map.mpr ⟨e, he, rfl⟩)
+    (by rw [elemHexP_of_not_pending (pendingElem_sdec (hl e he) hn), elemHex4_sdec (hl e he), hf]; rfl)
 
 /-- a refused list refuses the line: `PseudoOperand.__init__` raises -/
 theorem createOperand_multiByte_reject {row : InstrRow} (hp : row.isPseudo = true)
